@@ -676,7 +676,8 @@ def run_case(case, out, env):
     def call(seed, stream):
         st_np = np.random.get_state()
         st_py = random.getstate()
-        with seams.EntropySeam(stream) as es:
+        # uninitialised memory (np.empty ...) is answered with a different fill in the first and in the second call
+        with seams.EntropySeam(stream) as es, seams.UninitSeam(fill=1.5e10 if stream == 0 else -3.25e7):
             with np.errstate(all='ignore'):
                 r = fn(numqi, seed)
         hits = list(es.hits)
